@@ -80,8 +80,8 @@ WorkThread::WorkThread(event::Loop *main_loop) :
     d_(new Data)
 {
     d_->default_main_loop = main_loop;
-    d_->work_thread = std::thread(std::bind(&WorkThread::threadProc, this));
     d_->stop_flag = false;
+    d_->work_thread = std::thread(std::bind(&WorkThread::threadProc, this));
 }
 
 WorkThread::~WorkThread()
@@ -283,9 +283,11 @@ void WorkThread::cleanup()
             d_->task_pool.free(d_->undo_tasks_cabinet.free(token));
             d_->undo_tasks_token_deque.pop_front();
         }
+
+        //! 必须在持锁期间置位，否则正准备进入等待的线程会错过通知
+        d_->stop_flag = true;
     }
 
-    d_->stop_flag = true;
     d_->cond_var.notify_all();
 
     d_->work_thread.join();
